@@ -9,8 +9,8 @@ use std::sync::Arc;
 
 #[derive(Serialize, Deserialize, Clone, Debug)]
 pub enum Case {
-    Eea { key: String, count: u32, bearer: u32, direction: u32, length: u32, msg: String },
-    Eia { key: String, count: u32, bearer: u32, direction: u32, length: u32, msg: String, flip: Option<u32> },
+    Eea { key: String, count: u32, bearer: u32, direction: u32, length: u32, msg: String, #[serde(default)] extra: usize },
+    Eia { key: String, count: u32, bearer: u32, direction: u32, length: u32, msg: String, flip: Option<u32>, #[serde(default)] extra: usize },
 }
 
 fn h16(s: &str) -> [u8; 16] {
@@ -39,10 +39,11 @@ fn eval(ctx: &Ctx, case: &Case) {
     ctx.state();
     let cj = || serde_json::to_value(case).unwrap();
     match case {
-        Case::Eea { key, count, bearer, direction, length, msg } => {
+        Case::Eea { key, count, bearer, direction, length, msg, extra } => {
             let k = h16(key);
             let words = ((*length + 31) / 32) as usize;
-            let m = message(ctx, msg, words);
+            // the caller's buffer may be longer than ceil(LENGTH/32) words
+            let m = message(ctx, msg, words + extra);
             let want = zuc::eea3(&k, *count, *bearer, *direction, *length, &m);
             ctx.trace();
             let site = "EEA::encrypt";
@@ -63,7 +64,7 @@ fn eval(ctx: &Ctx, case: &Case) {
                         return;
                     }
                     // applying it twice restores the first LENGTH bits
-                    let mut mm = m.clone();
+                    let mut mm = m[..words].to_vec();
                     if *length % 32 != 0 {
                         let l = mm.len();
                         mm[l - 1] &= 0xffff_ffffu32 << (32 - (*length % 32));
@@ -76,9 +77,9 @@ fn eval(ctx: &Ctx, case: &Case) {
                 }
             }
         }
-        Case::Eia { key, count, bearer, direction, length, msg, flip } => {
+        Case::Eia { key, count, bearer, direction, length, msg, flip, extra } => {
             let k = h16(key);
-            let words = ((*length + 31) / 32) as usize;
+            let words = ((*length + 31) / 32) as usize + extra;
             let mut m = message(ctx, msg, words);
             if let Some(f) = flip {
                 m[(*f / 32) as usize] ^= 1u32 << (31 - (*f % 32));
@@ -120,7 +121,7 @@ pub fn replay(ctx: &Arc<Ctx>, v: &Value) {
 pub fn run(ctx: &Arc<Ctx>) {
     refmodels::selftest::run(&["zuc"]).unwrap_or_else(|e| ctx.machinery_error(format!("reference self-test failed: {}", e)));
     let lmax = 600u32;
-    ctx.set_rule("LENGTH every value 0..=600 (EIA3) / 1..=600 (EEA3) x (bearer, direction) x key/COUNT in {test-set values, seeded} x message in {zero, ones, seeded}; EIA3 additionally every single-bit flip of the message over all 32*ceil(LENGTH/32) positions for every LENGTH <= 96 and every 37th after. quick: all lengths with 4 (bearer,direction) pairs + all 64 pairs at 9 lengths; thorough: full product. Oracle: bit-level EEA3/EIA3 over the independent ZUC, pinned by 3GPP test sets.");
+    ctx.set_rule("LENGTH every value 0..=600 (EIA3) / 1..=600 (EEA3) x (bearer, direction) x key/COUNT in {test-set values, seeded} x message in {zero, ones, seeded} held in a buffer of ceil(LENGTH/32)+{0,1,2} words; EIA3 additionally every single-bit flip of the message over all 32*ceil(LENGTH/32) positions for every LENGTH <= 96 and every 37th after. quick: all lengths with 4 (bearer,direction) pairs + all 64 pairs at 9 lengths; thorough: full product. Oracle: bit-level EEA3/EIA3 over the independent ZUC, pinned by 3GPP test sets.");
     let keys: Vec<(String, u32)> = vec![
         ("173d14ba5003731d7a60049470f00a29".into(), 0x66035492),
         ("c9e6cec4607c72db000aefa88385ab0a".into(), 0xa94059da),
@@ -140,9 +141,9 @@ pub fn run(ctx: &Arc<Ctx>) {
                         continue;
                     }
                     if length >= 1 {
-                        cases.push(Case::Eea { key: key.clone(), count: *count, bearer: *bearer, direction: *direction, length, msg: msg.into() });
+                        cases.push(Case::Eea { key: key.clone(), count: *count, bearer: *bearer, direction: *direction, length, msg: msg.into(), extra: (length as usize + ki) % 3 });
                     }
-                    cases.push(Case::Eia { key: key.clone(), count: *count, bearer: *bearer, direction: *direction, length, msg: msg.into(), flip: None });
+                    cases.push(Case::Eia { key: key.clone(), count: *count, bearer: *bearer, direction: *direction, length, msg: msg.into(), flip: None, extra: (length as usize + ki + 1) % 3 });
                 }
             }
         }
@@ -150,12 +151,12 @@ pub fn run(ctx: &Arc<Ctx>) {
             let nbits = 32 * ((length + 31) / 32);
             for f in 0..nbits {
                 let (key, count) = &keys[(f as usize) % keys.len()];
-                cases.push(Case::Eia { key: key.clone(), count: *count, bearer: 0x0a, direction: 1, length, msg: "seed".into(), flip: Some(f) });
+                cases.push(Case::Eia { key: key.clone(), count: *count, bearer: 0x0a, direction: 1, length, msg: "seed".into(), flip: Some(f), extra: 0 });
             }
         }
     }
     ctx.note_bound(format!("LENGTH<=600, {} cases", cases.len()));
     ctx.sample(serde_json::to_value(&cases[10]).unwrap());
     ctx.sample(serde_json::to_value(&cases[cases.len() - 1]).unwrap());
-    cases.par_iter().for_each(|c| eval(ctx, c));
+    run_cases(ctx, &cases, 64, eval);
 }
